@@ -747,6 +747,73 @@ def process_harness(kind):
             '  __CPROVER_assert(0, "nv_canary: end of harness reachable");\n  return 0;\n}\n')
 
 
+PBASE_TU = 'src/generator/pairwise_base.cpp'
+FEATURE_TU = 'src/feature.cpp'
+
+
+def feature_scalar_decl():
+    """the in-class declaration of feature_t::scalar (the one that carries the default arguments)"""
+    for d in astload.dump(FEATURE_TU, 'nano::feature_t'):
+        for x in astload.walk(d):
+            if x.get('kind') == 'CXXMethodDecl' and x.get('name') == 'scalar' and \
+               any(c.get('kind') == 'ParmVarDecl' and any(k.get('kind') != 'FullComment' for k in c.get('inner', [])) for c in x.get('inner', [])):
+                return x
+    from cxx2c import Unsupported
+    raise Unsupported('declaration of feature_t::scalar with default arguments not found')
+
+
+def feature_scalar_hook():
+    import hooks
+    inner = hooks.member_default_args_hook('scalar', r'nano::feature_t', 'feature_scalar', feature_scalar_decl)
+
+    def h(P, n):
+        t = inner(P, n)
+        return None if t is None else f'(*{t})'      # feature_t::scalar returns *this by reference
+    return h
+
+
+def product_process_fns():
+    """pairwise_product_t::process / feature + base_pairwise_generator_t::make_scalar_feature / mapped_original1/2 + feature_t::scalar"""
+    types = [(r'^nano::datasource_t$', 'struct nv_dsrc'), (r'^nano::feature_t$', 'struct nv_feature'), (r'^nano::feature_type$', 'int32_t'),
+             (r'^nano::tensor3d_dims_t$|^std::array<long, 3>$|tensor_dims_t<3', 'struct nv_dims3'),
+             (r'^std::tuple<\(lambda at .*pairwise_product\.h:\d+:\d+\), long>$|^tuple<typename __decay_and_strip< ?(const )?\(lambda at .*pairwise_product\.h:\d+:\d+\) ?&?>::__type, typename __decay_and_strip< ?(const )?long ?&?>::__type>$', 'struct nv_procret'),
+             (r'^\(lambda at .*pairwise_product\.h:\d+:\d+\)$', 'struct nv_op')]
+    t2 = (r'^operator\(\)\|typename tbase::tconstref \(const nano::tensor_size_t, const int\) const\|.*tensor_vector_storage_t, long, 2>', '(*nv_t2i_at({&0}, {1}, {2}))')
+    common = dict(types=types, uf_float=False, hooks=[feature_scalar_hook()],
+                  calls=[t2, (r'^make_dims\|', 'nv_make_dims3({0}, {1}, {2})'),
+                         (r'^make_tuple\|', '(struct nv_procret){ {1} }'),
+                         (r'^ctor\|nano::feature_t\|void \((const )?(nano::)?feature_t &&?\)', '{0}'),      # copy / move of a descriptor
+                         (r'^ctor\|nano::feature_t\|void \(((nano::)?string_t|std::(__cxx11::)?basic_string<char>|std::string)\)', 'nv_feature_named()'),          # feature_t{name}: the name is not modelled
+                         (r'^operator=\|std::array<long, 3> &', '({0} = {1})')],
+                  members=[(r'^mapped_original1\|', 'pgen_mapped_original1'), (r'^mapped_original2\|', 'pgen_mapped_original2'),
+                           (r'^make_scalar_feature\|', 'pgen_make_scalar_feature'),
+                           (r'^datasource\|nano::generator_t', '(*nv_gen_datasource({self}))'),
+                           (r'^feature\|nano::datasource_t', 'nv_dsrc_feature_ref'),
+                           (r'^clear\|std::vector<std::(__cxx11::)?basic_string', 'nv_feature_clear_labels(self)')])
+    gen = dict(self_struct='struct nv_egen', **common)
+    return [Fn('product_process', PAIR_TU, 'process', flt='nano::pairwise_product_t::process', **gen),
+            Fn('product_feature', PAIR_TU, 'feature', flt='nano::pairwise_product_t::feature', **gen),
+            Fn('pgen_make_scalar_feature', PBASE_TU, 'make_scalar_feature', flt='nano::base_pairwise_generator_t::make_scalar_feature', **gen),
+            Fn('pgen_mapped_original1', PBASE_TU, 'mapped_original1', flt='nano::base_pairwise_generator_t::mapped_original1', **gen),
+            Fn('pgen_mapped_original2', PBASE_TU, 'mapped_original2', flt='nano::base_pairwise_generator_t::mapped_original2', **gen),
+            Fn('feature_scalar', FEATURE_TU, 'scalar', flt='nano::feature_t::scalar', self_struct='struct nv_feature', **common)]
+
+
+PRODUCT_PROCESS = r"""
+int main(void)
+{
+  NV_PAIR_SETUP
+  struct nv_feature f = product_feature(&gen, i);
+  struct nv_procret r = product_process(&gen, i);
+  __CPROVER_assert(!nv_thrown, "pairwise product: feature(i) / process(i) do not throw for a valid generator-local index");
+  __CPROVER_assert(f.m_type != NVE_feature_type_sclass && f.m_type != NVE_feature_type_mclass && f.m_classes == 0, "pairwise product: feature(i) is a continuous feature without labels");
+  __CPROVER_assert(r.colsize == NV_COLUMNS(f), "pairwise product: process(i) reports exactly the number of flatten columns that dataset_t::update() books for feature(i) (NV_COLUMNS of columns.h)");
+  __CPROVER_assert(0, "nv_canary: end of harness reachable");
+  return 0;
+}
+"""
+
+
 UPD_H = 'specs/C08/update.h'
 import os as _os
 CBMC_TIMEOUT_DEFAULT = int(_os.environ.get('NV_CBMC_TIMEOUT', '600'))
@@ -844,6 +911,7 @@ def build(tier):
         targets.append(Target('dataset_select_' + kind, select_fns(kind), SEL_H, replace=['dataset_byfeature', 'dataset_check_samples']))
     for kind in PROC_KINDS:
         targets.append(Target('process_' + kind, process_fns(kind), PROC_H, enforce_none=True, harness=process_harness(kind), enums=FEATURE_TYPE_ENUM, timeout=60))
+    targets.append(Target('process_product', product_process_fns, PROC_H, enforce_none=True, harness=PRODUCT_PROCESS, enums=FEATURE_TYPE_ENUM, timeout=60))
     for nm in ('drop', 'shuffle', 'shuffled'):
         targets.append(Target('dataset_' + nm, wrapper_fns(nm), DROP_H, replace=['dataset_byfeature']))
     for nm in ('undrop', 'unshuffle'):
@@ -861,12 +929,12 @@ def build(tier):
             'pairwise product: the operator of pairwise_product_t::process equals (scalar_t)v1 * (scalar_t)v2 with IEEE semantics for all 10 x 10 storage-type instantiations; pairwise select_scalar / flatten (int32 x uint32): a cell is that product of the two stored sources of the sample behind the row when both are given, NaN otherwise, every other cell untouched, all reads in bounds',
             '[thorough tier] dataset_t::update() (real body, 5 loop contracts, for every generator list of up to 1000 generators / 1000 generated features, feature counts and column counts given by ghost prefix sums fbase / cbase): ESTABLISHES the bookkeeping invariant from any prior state: feature table has one row per generated feature and 5 columns, column table one row per flattened column (documented encodings: one-hot C-1, multi-label C, scalar / structured size(dims)) and 3 columns, generator table one row per generator; every write of the three tables is inside its table and every row is written; row f of the feature table names a generator g in [0, generators) that owns f (fbase[g] <= f < fbase[g+1]), the local index f - fbase[g] and the dimensions of the descriptor (mclass: (classes,1,1), scalar / struct: dims()); row c of the column table names the feature k < features() that owns c (cbase[k] <= c < cbase[k+1]: the column ranges of the features are consecutive, disjoint and tile [0, columns()), column2feature answers with the owner), the local column c - cbase[k] and a generator that owns k; row g of the generator table is the width of the column range [cbase[fbase[g]], cbase[fbase[g+1]]) that dataset_t::flatten hands to generator g; generator->feature(i) is only called with a valid local index',
             'dataset_t::drop(f) / shuffle(f) / shuffled(f, samples) (real bodies, byfeature by its proved contract, m_feature_mapping as a real bounds-checked array whose every read by the wrapper is an access obligation 0 <= f < rows and is counted): an index outside [0, features()) throws, the generator is not called and NO cell of the mapping table is read on that path (dataset_<op>.postcondition.1-3, nv_t2i_at.assertion.1); a valid index does not throw and is forwarded exactly once, to the right operation, of the generator the table names (column 0) with the generator-local index (column 1) (postcondition.4-5); shuffled hands back the generator\'s answer for the caller\'s sample list; dataset_t::undrop() / unshuffle() (loop contract): every generator of the list (ghost slot) gets exactly one call of the right operation, no table cell is read, nothing throws',
-            'generator side of the column bookkeeping (quick tier): for the four identity generators (sclass / mclass / scalar / struct) the real process(i) reports exactly NV_COLUMNS(feature(i)) flatten columns, with the real feature(), mapped_original / mapped_classes / mapped_dims and every read of the generator\'s mapping table in bounds; NV_COLUMNS is ONE macro (specs/C08/columns.h) shared with the contract of dataset_t::update() (thorough tier), so a generator whose width disagrees with the bookkeeping fails process_<kind>/main.assertion.3; feature(i) is the descriptor of the original feature the mapping names (main.assertion.2)',
+            'generator side of the column bookkeeping (quick tier): for the four identity generators (sclass / mclass / scalar / struct) and the pairwise product generator (real pairwise_product_t::process / feature, base_pairwise_generator_t::make_scalar_feature / mapped_original1/2, feature_t::scalar with its default dimensions read from the declaration) the real process(i) reports exactly NV_COLUMNS(feature(i)) flatten columns, with the real feature(), mapped_original / mapped_classes / mapped_dims and every read of the generator\'s mapping table in bounds; NV_COLUMNS is ONE macro (specs/C08/columns.h) shared with the contract of dataset_t::update() (thorough tier), so a generator whose width disagrees with the bookkeeping fails process_<kind>/main.assertion.3; feature(i) is the descriptor of the original feature the mapping names (main.assertion.2)',
             'drop / shuffle protocol: transition contracts of drop / shuffle / undrop / unshuffle over every reachable state, observed through the real should_drop / shuffled readers (hence for every call sequence, by induction); generator_t::select x4: a dropped feature is filled with NaN / -1 and its values are not computed, otherwise do_select runs on exactly these arguments'],
         'not_decided': [
             'agreement of the per-feature and flattened views for the other 11 feature kinds / storage widths, product and gradient generators, targets (the instantiations that exist were not enumerated with astload.instantiations in this round)',
             'the invariant proved for dataset_t::update() (thorough tier) is not yet wired into its callers: byfeature / select / flatten still ASSUME it at the queried row (the assumed instance -- 5 columns, 0 <= mapping(f, 0) < generators -- is a consequence of clauses 1 and 3 of the update contract, but no refinement target checks that implication); the loop of dataset_t::flatten that adds up the generator widths is not under contract',
-            'column width of the other generators (pairwise_product_t::process: colsize 1 against make_scalar_feature; elemwise_gradient_t::process: rows * cols against make_struct_feature; the sclass / mclass / struct pairwise kinds): not under contract; that elemwise_generator_t::flatten advances its column by exactly the colsize of process(i) is proved for the sclass / 8-bit instantiation only (flatten_sclass_u8)',
+            'column width of the other generators (elemwise_gradient_t::process: rows * cols against make_struct_feature; the sclass / mclass / struct pairwise kinds, which have no generator in the library yet): not under contract; that elemwise_generator_t::flatten advances its column by exactly the colsize of process(i) is proved for the sclass / 8-bit instantiation only (flatten_sclass_u8)',
             'the fit() side of the identity generators: detail::select (include/nano/generator/select.h, nested generic lambdas) builds the generator\'s mapping table; its result (row k = original index, classes(), dims() of a data-source feature of the generator\'s kind) is ASSUMED at the queried row by the process_* targets',
             'dataset_t::drop / shuffle / shuffled: byfeature(feature) is hoisted in front of the statement that uses it (C++17: the postfix expression of a call is sequenced before its arguments); a source that passes byfeature(..) as one of SEVERAL arguments of a call (unspecified order) is refused (exit 2), not decided',
             'the thread-parallel dataset_t::flatten / targets bodies; generator_t::shuffled(feature, samples) (the loop that applies the permutation) and flatten_dropped',
@@ -890,7 +958,7 @@ def build(tier):
             'flatten target: the listed samples are valid indices (what check(samples) must establish) -- every list read returns some index in [0, N); the flatten buffer is tracked at one ghost cell (the function never reads it); Eigen segment / setConstant / coefficient access have their documented meaning with their index preconditions checked at each use; dataset_t::flatten maps the buffer to samples.size() rows and hands the generator a column range inside it; generator_t::NaN is a NaN',
             'select targets: dataset_t::feature(i) throws for an invalid i (as proved for byfeature) and otherwise returns an arbitrary descriptor; handle_<kind> throws unless the descriptor has that kind; resize_and_map returns a view with the requested leading dimension (further dimensions not modelled); generator_t::select may throw',
             'wrapper targets (drop / shuffle / shuffled / undrop / unshuffle): dataset_byfeature by its contract (proved by the dataset_byfeature target) under the same instance of the update() invariant at the queried row; generator_t::drop / shuffle / shuffled / undrop / unshuffle do not throw and are recorded by ghost variables (their transitions: gen_* targets); range-for / iterator loop over m_generators visits the slots 0 .. size-1 in order; at most 10^5 generators',
-            'process targets: the generator is fitted (generator_t::datasource() returns the data source, does not throw); base_elemwise_generator_t::fit() invariant at the queried row i (from select_<kind> / detail::select, not extracted): mapping(i, 0) is a valid feature index of the data source, mapping(i, 1) = its classes(), mapping(i, 2..4) = its dims(), and the feature has the generator\'s kind (is_sclass / is_mclass / is_scalar: size(dims) == 1 / is_struct: size(dims) > 1); 0 <= classes() <= 2^40; nano::size(dims) is an uninterpreted function of the three extents (congruence only; C16 proves nano::size), make_dims(a, b, c) is the triple; datasource_t::feature(i) is a pure function observed at one ghost index; the generator\'s mapping table is observed at one ghost row (index preconditions checked at every use); std::max / std::min on tensor_size_t have their exact meaning; the operator half of the tuple returned by process() is not looked at here',
+            'process targets: the generator is fitted (generator_t::datasource() returns the data source, does not throw); base_elemwise_generator_t::fit() invariant at the queried row i (from select_<kind> / detail::select, not extracted): mapping(i, 0) is a valid feature index of the data source, mapping(i, 1) = its classes(), mapping(i, 2..4) = its dims(), and the feature has the generator\'s kind (is_sclass / is_mclass / is_scalar: size(dims) == 1 / is_struct: size(dims) > 1); 0 <= classes() <= 2^40; nano::size(dims) is an uninterpreted function of the three extents (congruence only; C16 proves nano::size), make_dims(a, b, c) is the triple; datasource_t::feature(i) is a pure function observed at one ghost index; the generator\'s mapping table is observed at one ghost row (index preconditions checked at every use); std::max / std::min on tensor_size_t have their exact meaning; the operator half of the tuple returned by process() is not looked at here; process_product: both originals named by the (2 x 5 column) mapping row are features of the data source (make_pairwise of two select_<kind> tables), feature_t{name} is a descriptor with arbitrary contents (name not modelled), m_labels.clear() makes classes() 0, nano::size of the dimensions (1, 1, 1) is 1',
             'exceptions are early returns with nv_thrown set; stubs called with a may-throw argument do nothing once nv_thrown is set',
             'sizes are bounded (2^40 samples for the bit mask, 10^6 list entries / samples elsewhere, 10^5 features / generators) only to keep byte counts inside size_t and CBMC objects addressable'],
         'trusted': [],
